@@ -33,7 +33,8 @@ def insertSorted (x : Nat × String) : List (Nat × String) → List (Nat × Str
 def idxList (bs : List Blk) : String := String.intercalate "," (bs.map fun b => toString b.1)
 
 def ownStr (o : OwnObj) : String :=
-  if o.tag = 1 then "F[" ++ String.intercalate "," (o.bs.map fun b => s!"{b.1}+{b.2}") ++ "]"
+  if o.tag = 4 then "I[]"
+  else if o.tag = 1 ∨ o.tag = 5 then "F[" ++ String.intercalate "," (o.bs.map fun b => s!"{b.1}+{b.2}") ++ "]"
   else if o.tag = 2 then s!"V[{idxList o.bs}]c{o.cap}"
   else if o.tag = 3 then s!"B[{idxList o.bs}]"
   else s!"S[{idxList o.bs}]"
@@ -45,8 +46,10 @@ def arrStr (s : OS) (a : ArrObj) : String :=
     | some g => s!"A{a.kind}[e!{g}]"
   | some sid =>
     let g := match a.g with | some g => toString g | none => "-9999"
+    -- slots spanned: 0 for an empty view (all extents zero)
+    let sp := if a.dims.any (fun d => d == 0) then 0 else ext a.dims a.strides + 1
     match findStor s sid with
-    | some t => s!"A{a.kind}[{g}+{ext a.dims a.strides + 1}@{t.gi}/{t.n}/{t.links}~{a.off}]"
+    | some t => s!"A{a.kind}[{g}+{sp}@{t.gi}/{t.n}/{t.links}~{a.off}]"
     | none => s!"A{a.kind}[{g}+{ext a.dims a.strides + 1}@dangling]"
 
 /-- all live objects, by handle -/
@@ -83,8 +86,40 @@ def isVecArr (s : OS) (h : Nat) : Bool :=
   | some a => a.kind == 1
   | none => false
 
+/-- shape of the initializer lists the harness writes, by rank (harness/drv_galloc.cpp, LIST_SHAPES) -/
+-- rank 7: `Array<7,…>` cannot be instantiated in the pinned tree (non-template `permute` with `enable_if<(Rank < 7)>`)
+def listShape : Nat → Option (List Nat)
+  | 1 => some [3]
+  | 2 => some [2, 3]
+  | 3 => some [2, 1, 2]
+  | 4 => some [1, 2, 1, 2]
+  | 5 => some [2, 1, 1, 2, 1]
+  | 6 => some [1, 1, 2, 1, 1, 2]
+  | _ => none
+
 def step (st : St) (ws : List String) : St × String :=
   match ws with
+  | ["il", k, cls, r, v] => match k.toNat?, cls.toNat?, r.toNat?, v.toNat? with
+    | some k, some cls, some r, some v =>
+      match listShape r with
+      | some dims =>
+        if v > 1 ∨ cls > 3 then (st, "bad-op")
+        else if cls < 2 then doOp st (.listArr k dims (cls == 0))
+        else doOp st (.listFixed k dims (cls == 2))
+      | none => (st, "bad-op")
+    | _, _, _, _ => (st, "bad-op")
+  | ["al", k, v] => match k.toNat?, v.toNat? with
+    | some k, some v =>
+      if v > 1 then (st, "bad-op")
+      else match st.os.arrs.lookup k with
+        | some a => match listShape a.kind with
+          | some dims => doOp st (.assignList k dims)
+          | none => (st, "bad-op")
+        | none => doOp st (.assignList k [])
+    | _, _ => (st, "bad-op")
+  | "lt" :: k :: src :: spec => match k.toNat?, src.toNat?, spec.mapM ix? with
+    | some k, some src, some spec => doOp st (.linkTemp k src spec)
+    | _, _, _ => (st, "bad-op")
   | ["reset"] => ({}, "reset")
   | ["cfg", p, v] => match p.toNat?, v.toNat? with
     | some p, some v => if p < 1 then (st, "bad-op") else ({ st with os := { st.os with packet := p }, verbose := v != 0 }, "cfg")
